@@ -60,7 +60,7 @@ theorem step_reads (oc : Bool) (b : Buf) (op : Op) (h : b.WInv) (hr : isReadLike
           have hb := dfOf_bounds f _ s e n hf
           exact ⟨n, Reads.of_consume b n (by rw [← hl]; exact hb.2.2.2)⟩
   | tryParse ops sm =>
-    rcases step_tryParse_cases oc b ops sm h with ⟨_, _, k, hr⟩ | ⟨_, _, hr⟩
+    rcases step_tryParse_cases oc b ops sm h with ⟨_, _, k, hr⟩ | ⟨_, _, hr, _⟩
     · exact ⟨k, hr⟩
     · exact ⟨_, hr⟩
   | _ => simp [isReadLike] at hr
